@@ -610,7 +610,44 @@ def r17(ctx):
         raise AnalysisBroken('C06.R17: the conversion of minutes since 2009 was not found in the decoder')
 
 
+def r18(ctx):
+    ctx.rule('C06.R18', 'the sign found by the range check reaches the decoder: every path of NumberDataType::checkValueRange to a '
+             'return of RESULT_OK passes the store of the sign through the out-parameter (when one was handed over) - '
+             'readFromRawValue starts with negative = false and prints an accepted negative pattern as an unsigned number, '
+             'which the encoder then refuses', minimum=1)
+    fb = ctx.fb
+    fn = fb.fn('ebusd::NumberDataType::checkValueRange')
+    ctx.touch(fn)
+    pn = fn.P(1)
+    stores = set(nid for nid, d, rhs, op, lhs in fn.assignments() if lhs is not None and fn.key(lhs) == '*' + pn)
+    if not stores:
+        raise AnalysisBroken('C06.R18: the store through the sign out-parameter was not found')
+    cut = list(fn.edges_with_atom(pn, False)) + list(fn.edges_with_atom('(%s == #0)' % pn, True))
+    n = 0
+    for r in fn.all('ReturnStmt'):
+        val = fn.nodes[r].get('val')
+        if val is None:
+            continue
+        leaves = []
+        def walk(x):
+            x = fn.strip(x, casts=True)
+            nd = fn.nodes[x]
+            if nd['k'] == 'ConditionalOperator':
+                walk(nd['then']); walk(nd['else'])
+            else:
+                leaves.append(fn.val(x))
+        walk(val)
+        if 0 not in leaves and None not in leaves:
+            continue
+        n += 1
+        miss = fn.reaches_point(fn.entry, fn.pos(r), stores, cut_edges=cut)
+        ctx.ob('C06.R18', fn, r, not miss, 'return that may be RESULT_OK', 'the sign was stored on every path to it: %s' % (not miss))
+    if n < 1:
+        raise AnalysisBroken('C06.R18: no return of RESULT_OK found in checkValueRange')
+
+
 def run(ctx):
+    r18(ctx)
     r17(ctx)
     r15(ctx)
     import rules.C07 as _c07
